@@ -258,14 +258,20 @@ After(d, e) ==
 
 ObsAll(d, o) == IF ~o.some THEN {} ELSE UNION { ObsFails(d, o.cs[i].c, o.cs[i]) : i \in DOMAIN o.cs }
 
-EventFails(d, e) ==
+EventFailsR(d, e) ==
   LET f1 == RespFails(d, e, e.r1, 1)
       f2 == RespFails(d, e, e.r2, 2)
-      hard == {"Outcome"}
-  IN Tag("r1.", f1) \cup Tag("r2.", f2)
-     \cup (IF RespSame(e, e.r1, e.r2) THEN {} ELSE {"Sdk.Equal"})
-     \cup (IF "Outcome" \in f1 \/ "Outcome" \in f2 THEN {}
-           ELSE Tag("o1.", ObsAll(After(d, e), e.o1)) \cup Tag("o2.", ObsAll(After(d, e), e.o2)))
+      obs == IF "Outcome" \in f1 \/ "Outcome" \in f2 THEN {}
+             ELSE Tag("o1.", ObsAll(After(d, e), e.o1)) \cup Tag("o2.", ObsAll(After(d, e), e.o2))
+  IN [all  |-> Tag("r1.", f1) \cup Tag("r2.", f2) \cup (IF RespSame(e, e.r1, e.r2) THEN {} ELSE {"Sdk.Equal"}) \cup obs,
+      \* the state after the event is still KNOWN although an answer was wrong: both clients took an allowed branch, the same one,
+      \* nothing crashed, and either the full observation attached to the event agrees with the specification or the operation is
+      \* a read (whose purity the next observation of the trace decides).  The judge then records the failure and goes on,
+      \* so that a wrong answer (or a difference between the SDKs) does not hide what follows in the same trace.
+      soft |-> /\ obs = {} /\ {"Outcome", "NoCrash"} \cap (f1 \cup f2) = {}
+               /\ OcOf(e.r1) = OcOf(e.r2)
+               /\ (e.o1.some \/ e.op \in {"GetItem", "Query", "Scan", "DescribeTable", "BatchGet"})]
+EventFails(d, e) == EventFailsR(d, e).all
 
 \* signatures of data-plane events that known findings are about
 \* the known deviation of the key encoding: two DIFFERENT key tuples whose hash + "." + range byte strings coincide
@@ -313,11 +319,13 @@ TraceNext ==
      THEN LET f == LabFails(e) IN
           /\ db' = db /\ l' = l + 1
           /\ fails' = IF f = {} THEN fails ELSE Append(fails, [l |-> l, op |-> e.op, oc |-> "lab", parts |-> f, sig |-> LabSig(e)])
-     ELSE LET f == EventFails(db, e) IN
+     ELSE LET fr == EventFailsR(db, e)
+              f == fr.all IN
           IF f = {}
           THEN db' = After(db, e) /\ l' = l + 1 /\ UNCHANGED fails
           ELSE /\ fails' = Append(fails, [l |-> l, op |-> e.op, oc |-> OcOf(e.r1), parts |-> f, sig |-> OpSig(db, e)])
-               /\ l' = NextReset(l + 1) /\ db' = InitDB
+               /\ IF fr.soft THEN l' = l + 1 /\ db' = After(db, e)
+                             ELSE l' = NextReset(l + 1) /\ db' = InitDB
   /\ TLCSet(1, l') /\ TLCSet(2, fails')
 
 TraceSpec == TraceInit /\ [][TraceNext]_tvars
